@@ -297,7 +297,11 @@ pub fn add_simd(left: &dyn Array, right: &dyn Array) -> Result<ArrayRef> {
 
             let mut values = Vec::with_capacity(left.len());
             for i in 0..left.len() {
-                values.push(left_arr.value(i) + right_arr.value(i));
+                values.push(if left_arr.is_null(i) || right_arr.is_null(i) {
+                    None
+                } else {
+                    Some(left_arr.value(i) + right_arr.value(i))
+                });
             }
 
             Ok(Arc::new(Int64Array::from(values)))
@@ -314,7 +318,11 @@ pub fn add_simd(left: &dyn Array, right: &dyn Array) -> Result<ArrayRef> {
 
             let mut values = Vec::with_capacity(left.len());
             for i in 0..left.len() {
-                values.push(left_arr.value(i) + right_arr.value(i));
+                values.push(if left_arr.is_null(i) || right_arr.is_null(i) {
+                    None
+                } else {
+                    Some(left_arr.value(i) + right_arr.value(i))
+                });
             }
 
             Ok(Arc::new(Float64Array::from(values)))
@@ -341,7 +349,11 @@ pub fn multiply_simd(left: &dyn Array, right: &dyn Array) -> Result<ArrayRef> {
 
             let mut values = Vec::with_capacity(left.len());
             for i in 0..left.len() {
-                values.push(left_arr.value(i) * right_arr.value(i));
+                values.push(if left_arr.is_null(i) || right_arr.is_null(i) {
+                    None
+                } else {
+                    Some(left_arr.value(i) * right_arr.value(i))
+                });
             }
 
             Ok(Arc::new(Int64Array::from(values)))
@@ -358,7 +370,11 @@ pub fn multiply_simd(left: &dyn Array, right: &dyn Array) -> Result<ArrayRef> {
 
             let mut values = Vec::with_capacity(left.len());
             for i in 0..left.len() {
-                values.push(left_arr.value(i) * right_arr.value(i));
+                values.push(if left_arr.is_null(i) || right_arr.is_null(i) {
+                    None
+                } else {
+                    Some(left_arr.value(i) * right_arr.value(i))
+                });
             }
 
             Ok(Arc::new(Float64Array::from(values)))
